@@ -28,6 +28,20 @@ CHECKS = {
 
 NOT_APPLICABLE = []
 
+CHECKS['C01'] = (
+    'symbolic execution of the real workflow controller over task rows with '
+    'symbolic existence / state / routing (join lemma, differential against '
+    'a reference fixpoint), and bounded exploration of whole runs of the '
+    'real engine on minidb where action outcomes, guard values and delivery '
+    'order are solver variables, compared with a reference semantics; z3 '
+    'decides every path',
+    'Join logical state = reference for 7 shapes over all symbolic upstream '
+    'states (incl. cycles, depth > MAX_SEARCH_DEPTH); for 9 shapes every '
+    'outcome/guard assignment and every delivery order within the preemption '
+    'bound ends finished, with the task and workflow states the language '
+    'prescribes, without undeclared errors or lost post-commit operations.',
+    '§3 C01')
+
 CHECKS['C18'] = (
     'symbolic execution of the real expiration policy and db-api on minidb: '
     'the captured WHERE / ORDER BY / OFFSET / LIMIT trees are interpreted '
